@@ -29,7 +29,7 @@ RULE = (
     "plans of 1-3 sequential steps (optimizer/evaluator; 15% nested) under the scripted optimizer with request scripts of "
     "length 1-6 over a pool of 2-4 points that contains repeated points (ties) and points outside the bounds / linear / "
     "non-linear constraints; 35% of runs inject an all-realizations NaN evaluation with realization_min_success=0 and a "
-    "NaN-tolerant back-end; transforms in 45% (sign flip in half of those); 2-3 trackers per plan with what in {best,last}, "
+    "NaN-tolerant back-end; 30% prescribe objective values of exactly 0.0 / -0.0 / 1.0 for whole evaluations; transforms in 45% (sign flip in half of those); 2-3 trackers per plan with what in {best,last}, "
     "tolerance in {None,0,1e-10,1e-3,0.5} and source subsets. A further stratum (index%10==9) drives BasicOptimizer with real "
     "SLSQP/Nelder-Mead. Non-trivial = at least 2 function results reached a tracker and its state was compared after every "
     "event; distinct = (plan shape, request kinds, feasibility/NaN pattern of the history, tracker specs)."
@@ -43,7 +43,7 @@ COMPONENTS = {
     "real": ["DefaultTrackerHandler", "_update_optimal_result / _get_last_result", "optimizer/evaluator steps", "BasicOptimizer (10% of runs, real SLSQP/Nelder-Mead)", "ConstraintInfo"],
     "stub": ["SimEvaluator", "sim/scripted optimizer", "objective scaler incl. sign flip"],
 }
-PROBES = ["nan_and_valid_in_one_event", "states_compared", "nan_result_in_history", "nan_first", "infeasible_in_history", "tie_in_history", "sign_flip",
+PROBES = ["zero_objective_in_history", "nan_and_valid_in_one_event", "states_compared", "nan_result_in_history", "nan_first", "infeasible_in_history", "tie_in_history", "sign_flip",
           "untracked_source_result", "gradient_only_event", "nested", "basic_optimizer", "best_tracker", "last_tracker",
           "improvement_after_first"]
 
@@ -85,6 +85,13 @@ def generate(seed: int, index: int, tier: str) -> dict:
             scn["faults"].append(f)
     else:
         cfg["optimizer"]["options"]["allow_nan"] = False
+    if rng.random() < 0.3:
+        # evaluations whose objectives are exactly zero (or another round value): an optimum of 0.0 / -0.0 is a value like any other
+        for _ in range(rng.randint(1, 2)):
+            f = {"kind": "set", "eval": rng.choice([0, 0, 1, 2]), "value": rng.choice([0.0, 0.0, -0.0, 1.0])}
+            if rng.random() < 0.3:
+                f["vec"] = rng.choice([0, 1])
+            scn["faults"].append(f)
     # plan
     nsteps = 1 if nested else rng.randint(1, 3)
     steps = []
@@ -266,6 +273,8 @@ def execute(scn: dict) -> dict:
                     elif not feas:
                         probe("infeasible_in_history")
                     else:
+                        if v == 0.0:
+                            probe("zero_objective_in_history")
                         if v in vals:
                             probe("tie_in_history")
                         if vals and v < min(vals):
